@@ -42,6 +42,32 @@ def akai_payload():
     return A.build_akai(A.model_from_spec({"parts": parts}))[0]
 
 
+def akai_payload2():
+    """same partition/volume/file names as akai_payload(), different lengths, PCM and header values"""
+    prog = AP.simple_program("PROG", 1, ("SOLO",)).hex()
+    parts = []
+    seq = 40
+    for p in range(2):
+        vols = []
+        sec = 3
+        for v in range(2):
+            d = sec
+            sec += 1
+            files = []
+            for nm, n in (("ONE", 777), ("PAD-L", 1200), ("PAD-R", 1200)) if v == 0 else (("SOLO", 555),):
+                seq += 1
+                m = A.needed_sectors(140 + 2 * n)
+                ch = list(range(sec, sec + m))
+                sec += m
+                files.append({"name": nm, "n": n, "chain": ch, "seq": seq, "rate": 22050})
+            if v == 0:
+                files.append({"name": "PROG", "kind": "raw", "ftype": 0xF0, "chain": [sec], "data": prog})
+                sec += 1
+            vols.append({"name": f"VOL{v}", "dir": [d], "files": files})
+        parts.append({"vols": vols})
+    return A.build_akai(A.model_from_spec({"parts": parts}))[0]
+
+
 def akai_paths():
     out = ["", "A:", "B:"]
     for p in "AB":
@@ -90,8 +116,33 @@ _PAY = {}
 
 def payload(fmt):
     if fmt not in _PAY:
-        _PAY[fmt] = akai_payload() if fmt == "akai" else roland_payload()
+        _PAY[fmt] = {"akai": akai_payload, "roland": roland_payload, "akai2": akai_payload2}[fmt]()
     return _PAY[fmt]
+
+
+def pristine_baseline(fmt):
+    """observables of every single operation on a fresh object, computed in a NEW process (so that state kept at
+    module level by the code under test cannot leak from earlier cases of a long-lived worker into the baseline)"""
+    import json
+    import subprocess
+    import sys
+    r = subprocess.run([sys.executable, "-B", "-m", "mcv.checks.c16", "baseline", fmt], cwd=core.VERIF, capture_output=True,
+                       text=True, timeout=600, env=dict(os.environ, PYTHONHASHSEED="0"))
+    if r.returncode != 0:
+        raise core.HarnessError("baseline process failed: " + r.stderr[-400:])
+    return json.loads(r.stdout.strip().splitlines()[-1])
+
+
+def _baseline_main(fmt):
+    import json
+    out = {}
+    with scratch_dir("c16b") as d:
+        subj = Subject(fmt, d)
+        ops = subj.ops()
+        for op in [o for o in ops if o[0] != "ls"] + [o for o in ops if o[0] == "ls"]:
+            st, val = guarded(lambda: run_history(subj, [op]), 120.0)
+            out[repr(op)] = [st, list(val) if st == "ok" else repr(val)[:200]]
+    print(json.dumps(out))
 
 
 class Subject:
@@ -107,19 +158,19 @@ class Subject:
             os.chmod(self.path, 0o444)
 
     def ops(self):
-        base = self.fmt.replace("_file", "")
+        base = self.fmt.replace("_file", "").replace("akai2", "akai")
         paths = {"akai": akai_paths, "roland": roland_paths, "cdda": cdda_paths}[base]()
         return [["ls", p] for p in paths] + [["export"], ["export_same"]]
 
     def fresh(self):
-        if self.fmt in ("akai", "roland"):
+        if self.fmt in ("akai", "roland", "akai2"):
             self.bio = io.BytesIO(payload(self.fmt))
             from smpl_extract.actions import determine_image_type
             return determine_image_type(self.bio)
         return tree.open_image(self.path)
 
     def unchanged(self):
-        if self.fmt in ("akai", "roland"):
+        if self.fmt in ("akai", "roland", "akai2"):
             return self.bio.getvalue() == payload(self.fmt)
         if self.fmt == "cdda":
             with open(os.path.join(self.scratch, "disc.bin"), "rb") as f:
@@ -162,12 +213,22 @@ class Check(CheckBase):
             "paths, export into a fresh directory, and export into one fixed directory (so that a repeated export writes over "
             "its own files); ALL histories of length <=2 (quick) / <=3 (thorough; Roland <=2 plus all length-3 histories "
             "ending in export) run on ONE image object; oracle: observable of the last operation (stdout; exported paths + "
-            "content digest) equals that of the same operation on a fresh object, and the image bytes are unchanged. states = "
+            "content digest) equals that of the same operation on a fresh object IN A NEW PROCESS (baselines are computed in "
+            "pristine subprocesses), and the image bytes are unchanged; cross-image histories: one operation on an AKAI image, "
+            "then one on a second AKAI image with the same names but other bytes, in the same process. states = "
             "histories, transitions = operations. non-trivial = history of length >=2")
     assumptions = ["observable = captured stdout, exported relative paths and file bytes"]
 
     def shards(self):
         out = []
+        self._base = {}
+        for fmt in ("akai", "roland", "cdda", "akai2"):
+            self._base[fmt] = pristine_baseline(fmt)
+        # cross-image histories: one operation on image A, then one on image B (same names, other bytes) in the same process
+        with scratch_dir("c16s") as d:
+            nops = len(Subject("akai", d).ops())
+        for first in range(nops):
+            out.append({"fmt": "akai_cross", "first": first, "baseline": self._base["akai2"]})
         for fmt in ("akai", "roland", "cdda", "akai_file", "roland_file"):
             with scratch_dir("c16s") as d:
                 nops = len(Subject(fmt, d).ops())
@@ -178,9 +239,10 @@ class Check(CheckBase):
             for first in range(nops):
                 if base == "roland" and self.quick:
                     for second in range(0, nops, 4):
-                        out.append({"fmt": fmt, "first": first, "maxlen": maxlen, "second": [second, min(nops, second + 4)]})
+                        out.append({"fmt": fmt, "first": first, "maxlen": maxlen, "second": [second, min(nops, second + 4)],
+                                    "baseline": self._base[base]})
                 else:
-                    out.append({"fmt": fmt, "first": first, "maxlen": maxlen})
+                    out.append({"fmt": fmt, "first": first, "maxlen": maxlen, "baseline": self._base[base]})
         return out
 
     def run_shard(self, shard, rep: Report):
@@ -190,10 +252,12 @@ class Check(CheckBase):
                 subj = Subject(c["fmt"], d)
                 self._one(subj, c["history"], rep, {})
             return
+        if shard["fmt"] == "akai_cross":
+            return self._cross(shard, rep)
         with scratch_dir("c16") as d:
             subj = Subject(shard["fmt"], d)
             ops = subj.ops()
-            cache = {}
+            cache = {k: (v[0], tuple(v[1]) if v[0] == "ok" else v[1]) for k, v in shard.get("baseline", {}).items()}
             first = ops[shard["first"]]
             hists = [[first]]
             if shard["maxlen"] >= 2:
@@ -210,6 +274,36 @@ class Check(CheckBase):
                 hists = hists[1:]
             for h in hists:
                 self._one(subj, h, rep, cache)
+
+    def _cross(self, shard, rep):
+        base = {k: (v[0], tuple(v[1]) if v[0] == "ok" else v[1]) for k, v in shard["baseline"].items()}
+        with scratch_dir("c16x") as d:
+            a, b = Subject("akai", d), Subject("akai2", os.path.join(d, "b"))
+            os.makedirs(os.path.join(d, "b"), exist_ok=True)
+            ops = a.ops()
+            first = ops[shard["first"]]
+            for last in ops:
+                case = {"fmt": "akai_cross", "history": [first, last]}
+                rep.states += 1
+                rep.transitions += 2
+                rep.traces += 1
+                st0, want = base.get(repr(last), ("missing", None))
+                if st0 != "ok":
+                    continue
+
+                def go():
+                    run_history(a, [first])
+                    return run_history(b, [last])
+                st, got = guarded(go, 180.0)
+                if st != "ok":
+                    rep.case(case, ok=False, klass="raised" if st == "exc" else "hang", nontrivial=True,
+                             sig="akai_cross:" + ("raised:" + exc_sig(got) if st == "exc" else "hang"), detail={"observed": repr(got)[:200]})
+                elif tuple(got) != tuple(want):
+                    rep.case(case, ok=False, klass="depends-on-another-image", nontrivial=True,
+                             sig=f"akai_cross:depends-on-another-image:{last[0]}-after-{first[0]}",
+                             detail={"fresh": repr(want)[:300], "observed": repr(got)[:300]})
+                else:
+                    rep.case(case, klass=f"cross-same:{last[0]}", nontrivial=True)
 
     def _one(self, subj, hist, rep, cache):
         last = hist[-1]
@@ -232,7 +326,7 @@ class Check(CheckBase):
             rep.case(case, ok=False, klass="raised" if st == "exc" else "hang", nontrivial=nt,
                      sig=f"{subj.fmt}:" + ("raised:" + exc_sig(got) if st == "exc" else "hang"), detail={"observed": repr(got)[:200]})
             return
-        if got != want:
+        if tuple(got) != tuple(want):
             if got[0] == "export":
                 d = {"fresh_files": want[2][:6], "files": got[2][:6], "same_paths": want[2] == got[2], "same_stdout": want[1] == got[1],
                      "same_bytes": want[3] == got[3]}
@@ -244,3 +338,9 @@ class Check(CheckBase):
             rep.case(case, ok=False, klass="image-modified", nontrivial=nt, sig=f"{subj.fmt}:image-modified")
             return
         rep.case(case, klass=f"same:{last[0]}:len{len(hist)}", nontrivial=nt)
+
+
+if __name__ == "__main__":
+    import sys
+    if len(sys.argv) == 3 and sys.argv[1] == "baseline":
+        _baseline_main(sys.argv[2])
